@@ -231,6 +231,22 @@ struct Stats {
 	bulk_max_hash_buf: u64,
 	bulk_max_data_buf: u64,
 	bulk_file_compares: u64,
+	/// compaction shapes (measured on the prune list read from its file before / after)
+	compact_nth: BTreeMap<u64, u64>,
+	compactions_in_history: u64,
+	lone_leaf_roots_created: u64,
+	lone_leaf_roots_rolled_up: u64,
+	higher_roots_rolled_up: u64,
+	cutoff_lone_leaf_unspent: u64,
+	cutoff_lone_leaf_spent: u64,
+	cutoff_lone_leaf_protected: u64,
+	cutoff_pos_parent: u64,
+	chain_histories: u64,
+	/// snapshot round trips
+	snapshots: u64,
+	snapshots_at_head: u64,
+	snapshots_after_compaction: u64,
+	snapshot_missing_file: u64,
 	/// import family (state sync)
 	imports: u64,
 	import_subtrees: u64,
@@ -311,6 +327,7 @@ impl<'a, T: Kind> Run<'a, T> {
 		self.fails_in_history = 0;
 		self.protected_once.clear();
 		self.readded_protected.clear();
+		self.st.compactions_in_history = 0;
 		self.st.histories += 1;
 		let np = if self.prunable { "" } else { "np" };
 		self.emit(&format!("store new {}{}", np, T::NAME), "ok");
@@ -564,10 +581,45 @@ impl<'a, T: Kind> Run<'a, T> {
 			bitmap.remove(cutoff as u32);
 		}
 		let before = (self.be().hash_size(), self.be().data_size());
+		let pl_before: BTreeSet<u64> = PruneList::open(self.dir.join("pmmr_prun.bin")).map(|pl| pl.to_vec().into_iter().collect()).unwrap_or_default();
+		// the shape of the cutoff: does the cutoff position (1-based = boundary size) sit on a leaf
+		// (the MMR of that size ends in a lone single-leaf peak: sizes 1, 4, 8, 11, 16, ...) and is
+		// that leaf unspent (its bit is the last one `removed_pre_cutoff` keeps), spent for good, or
+		// spent inside the horizon (in rewind_rm_pos)
+		if cutoff > 0 && pmmr::is_leaf(cutoff - 1) {
+			if self.bk.unspent.contains(&(cutoff - 1)) {
+				self.st.cutoff_lone_leaf_unspent += 1;
+			} else if rm.contains(&(cutoff - 1)) {
+				self.st.cutoff_lone_leaf_protected += 1;
+			} else {
+				self.st.cutoff_lone_leaf_spent += 1;
+			}
+		} else if cutoff > 0 {
+			self.st.cutoff_pos_parent += 1;
+		}
 		let res = {
 			let be = self.backend.as_mut().unwrap();
 			catch(AssertUnwindSafe(|| be.check_compact(cutoff, &bitmap).is_ok()))
 		};
+		{
+			let pl_after: BTreeSet<u64> = PruneList::open(self.dir.join("pmmr_prun.bin")).map(|pl| pl.to_vec().into_iter().collect()).unwrap_or_default();
+			for p1 in pl_after.difference(&pl_before) {
+				if pmmr::is_leaf(*p1 - 1) {
+					self.st.lone_leaf_roots_created += 1;
+				}
+			}
+			for p1 in pl_before.difference(&pl_after) {
+				// a root of the old list that is gone: rolled up into a higher root (pos_to_rm's
+				// "sibling previously pruned" path pushed it back onto the removal list)
+				if pmmr::is_leaf(*p1 - 1) {
+					self.st.lone_leaf_roots_rolled_up += 1;
+				} else {
+					self.st.higher_roots_rolled_up += 1;
+				}
+			}
+			self.st.compactions_in_history += 1;
+			*self.st.compact_nth.entry(self.st.compactions_in_history.min(4)).or_insert(0) += 1;
+		}
 		let rhs = match res {
 			Ok(true) => "ok",
 			Ok(false) => "err",
@@ -2210,6 +2262,239 @@ impl<'a, T: Kind> Run<'a, T> {
 		self.bk.chain.truncate(j + 1);
 	}
 
+
+	// ---- chains of compactions ---------------------------------------------------------------
+
+	/// One history of the chain family.  `l` leaves in the first block; leaf `a` (and, for `both`,
+	/// nothing else yet) is spent by the next block; blocks follow so that the cutoff of the first
+	/// compaction lies after the spend and the spend is outside the horizon: `a` becomes a pruned
+	/// root of a single leaf.  Then the sibling of `a` is spent (created first if `a` is the last
+	/// leaf of an odd `l`), blocks, second compaction: `pos_to_rm` finds the sibling previously
+	/// pruned and rolls both up into their parent.  Then the neighbouring pair is spent and a third
+	/// compaction rolls up to height 2.  `cut_on_b1`: the first compaction's cutoff is the first
+	/// block's boundary itself when `l` is odd (the cutoff position is the lone last leaf: unspent,
+	/// or spent inside the horizon) - the spend of `a` is then inside the horizon and the leaf
+	/// only goes at the second compaction.  Reopen after some of the compactions; a rewind inside
+	/// the horizon and a re-spend at the end.
+	fn chain_history(&mut self, l: u64, a: u64, cut_on_b1: bool, reopen_mask: u64) {
+		self.fresh();
+		self.st.chain_histories += 1;
+		let leaf = |i: u64| pmmr::insertion_to_pmmr_index(i);
+		self.plain_unit(l, &[], true); // boundary 1 = B1
+		let b1 = self.bk.chain.len() - 1;
+		self.plain_unit(1, &[leaf(a)], true); // the spend of `a`, one new leaf
+		self.plain_unit(2, &[], true);
+		let c1 = if cut_on_b1 { b1 } else { self.bk.chain.len() - 1 };
+		self.compact_at(c1);
+		self.observe(true, true);
+		self.observe_prune_file();
+		if reopen_mask & 1 != 0 {
+			self.reopen();
+			self.observe(true, true);
+		}
+		// the sibling of `a` (it exists by now: at least three more leaves were appended)
+		let sib = a ^ 1;
+		if self.bk.unspent.contains(&leaf(sib)) {
+			self.plain_unit(1, &[leaf(sib)], true);
+		} else {
+			self.plain_unit(1, &[], true);
+		}
+		self.plain_unit(1, &[], true);
+		let head = self.bk.chain.len() - 1;
+		self.compact_at(head);
+		self.observe(true, true);
+		self.observe_prune_file();
+		if reopen_mask & 2 != 0 {
+			self.reopen();
+			self.observe(true, true);
+		}
+		// the neighbouring pair: rolls the parent up into the height-2 root
+		let base = (a / 4) * 4;
+		let nl = pmmr::n_leaves(self.bk.size);
+		let more: Vec<u64> = (base..base + 4).filter(|i| *i < nl && self.bk.unspent.contains(&leaf(*i))).map(leaf).collect();
+		self.plain_unit(2, &more, true);
+		// this spend stays inside the horizon of the third compaction: cutoff one block back
+		let sp: Vec<u64> = self.bk.unspent.iter().cloned().take(1).collect();
+		self.plain_unit(1, &sp, true);
+		let head = self.bk.chain.len() - 1;
+		self.compact_at(head - 1);
+		self.observe(true, true);
+		self.observe_prune_file();
+		if reopen_mask & 4 != 0 {
+			self.reopen();
+			self.observe(true, true);
+			self.observe_prune_file();
+		}
+		// a fork inside the horizon: the protected spend is undone, the sibling of that leaf goes
+		let saved = self.bk.clone();
+		self.readded.clear();
+		let n = self.bk.chain.len();
+		self.rewind_to(n - 2);
+		let re = self.readded.clone();
+		let mut spends: Vec<u64> = vec![];
+		for p in re {
+			let i = pmmr::n_leaves(p + 1) - 1;
+			let s = leaf(i ^ 1);
+			if self.bk.unspent.contains(&s) {
+				spends.push(s);
+			}
+		}
+		self.push();
+		for p in spends {
+			self.prune(p);
+		}
+		if a % 3 == 0 {
+			self.discard(saved);
+		} else {
+			self.sync();
+		}
+		self.observe(true, true);
+		let head = self.bk.chain.len() - 1;
+		self.compact_at(head);
+		self.observe(true, true);
+		self.observe_prune_file();
+		self.reopen();
+		self.observe(true, true);
+		self.plain_unit(2, &[], true);
+		self.backend = None;
+	}
+
+	fn chain_family(&mut self, max_l: u64) {
+		let mut k = 0u64;
+		for l in 2..=max_l {
+			// `a`: both members of the first pair, of a middle pair, of the last pair, and the lone
+			// last leaf of an odd count
+			let mut cands: Vec<u64> = vec![0, 1];
+			if l >= 4 {
+				cands.push((l / 2) & !1);
+				cands.push(((l / 2) & !1) + 1);
+			}
+			cands.push(l - 1);
+			if l >= 2 {
+				cands.push(l - 2);
+			}
+			cands.sort();
+			cands.dedup();
+			for a in cands {
+				if a >= l {
+					continue;
+				}
+				k += 1;
+				self.chain_history(l, a, false, k % 8);
+				if l % 2 == 1 {
+					// cutoff on the first boundary: its position is the lone last leaf
+					self.chain_history(l, a, true, (k + 3) % 8);
+				}
+			}
+		}
+	}
+
+	// ---- the leaf-set snapshot (txhashset zip) -----------------------------------------------
+
+	/// What `Chain::txhashset_read` and `txhashset_write` do to one backend: in a unit of work
+	/// rewound to committed boundary `j` (block by block or at once; `j` may be the head) the leaf
+	/// set is written to a side file tagged with a header hash (`LeafSet::snapshot`), the unit is
+	/// discarded; the files as they are then (the zip) are opened with that header
+	/// (`PMMRBackend::new(.., Some(header))`: `copy_snapshot` puts the snapshot in place of the leaf
+	/// set), rewound to the boundary with nothing to re-add, committed.  From then on the history
+	/// continues from boundary `j`.  `with_file = false`: a header nobody took a snapshot for - a
+	/// plain reopen.
+	fn snapshot_roundtrip(&mut self, with_file: bool) {
+		let n = self.bk.chain.len();
+		if n < 2 {
+			return;
+		}
+		let lo = self.bk.min_idx;
+		let j = if self.rng.chance(1, 3) { n - 1 } else { self.rng.range(lo as u64, (n - 1) as u64) as usize };
+		self.st.snapshots += 1;
+		if j == n - 1 {
+			self.st.snapshots_at_head += 1;
+		}
+		if self.compacted_once {
+			self.st.snapshots_after_compaction += 1;
+		}
+		let mut header = grin_core::core::BlockHeader::default();
+		header.height = self.st.snapshots + 1000 * self.st.histories;
+		let tag = hex(&header.hash().as_bytes()[..6]);
+		if !with_file {
+			self.st.snapshot_missing_file += 1;
+			self.backend = None;
+			self.backend = Some(PMMRBackend::new(&self.dir, true, ProtocolVersion(1), Some(&header)).unwrap());
+			self.emit("store reopen", "ok");
+			self.st.op("reopen(header without snapshot)");
+			self.hist.push("reopen(header, no snapshot file)".into());
+			self.check(true);
+			self.deep_oracle("reopen", true);
+			self.observe(true, true);
+			return;
+		}
+		let saved = self.bk.clone();
+		self.readded.clear();
+		if j < n - 1 {
+			if self.rng.chance(1, 2) {
+				let mut k = n - 1;
+				while k > j {
+					k -= 1;
+					self.rewind_to(k);
+				}
+			} else {
+				self.rewind_to(j);
+			}
+		}
+		let target = self.bk.chain[j].clone();
+		{
+			let size = self.bk.size;
+			let be = self.backend.as_mut().unwrap();
+			let r = PMMR::at(be, size).snapshot(&header);
+			if r.is_err() {
+				self.oracle_fail(format!("snapshot at boundary {} failed: {:?}", j, r));
+			}
+		}
+		self.emit(&format!("store snapshot {}", tag), "ok");
+		self.st.op("snapshot");
+		self.hist.push(format!("snapshot@{}", target.size));
+		self.discard(saved);
+		// the receiving side: the same files, opened with the header
+		self.backend = None;
+		self.backend = Some(PMMRBackend::new(&self.dir, true, ProtocolVersion(1), Some(&header)).unwrap());
+		self.emit(&format!("store reopen_snap {}", tag), "ok");
+		self.st.op("reopen_snap");
+		self.hist.push("reopen with snapshot header".into());
+		// its leaf set is the one of the boundary; the files are still the long ones
+		self.bk.unspent = target.unspent.clone();
+		self.readded.clear();
+		self.rewind_to(j);
+		self.sync();
+		self.observe(true, true);
+		self.observe_prune_file();
+		// the leaf-set file on disk is the snapshot: a plain reopen must find the same state
+		if self.rng.chance(1, 2) {
+			self.reopen();
+			self.observe(true, true);
+		}
+	}
+
+	fn snapshot_history(&mut self, units: u64, max_leaves: u64) {
+		self.fresh();
+		let compact_den = *self.rng.pick(&[2u64, 4, 6]);
+		for u in 0..units {
+			if pmmr::n_leaves(self.bk.size) >= max_leaves {
+				break;
+			}
+			self.unit(u == 0);
+			if self.bk.chain.len() > 1 && self.rng.chance(1, compact_den) {
+				self.compact();
+				self.observe(true, true);
+				self.observe_prune_file();
+			}
+			if u >= 1 && self.rng.chance(1, 3) {
+				let with_file = !self.rng.chance(1, 8);
+				self.snapshot_roundtrip(with_file);
+			}
+		}
+		self.backend = None;
+	}
+
 	fn history(&mut self, units: u64, max_leaves: u64) {
 		self.fresh();
 		// some histories compact often (short rewinds), some rarely (deep rewinds possible)
@@ -2433,6 +2718,13 @@ fn print_deep_stats(out: &mut Out, name: &str, st: &Stats) {
 		st.rewinds_unspend_protected,
 		st.sibling_of_readded_spent
 	));
+	let nth: Vec<String> = st.compact_nth.iter().map(|(k, v)| format!("{}{}={}", k, if *k >= 4 { "+" } else { "" }, v)).collect();
+	out.raw(&format!(
+		"#STAT [{}] compaction chains: compactions by their number inside the history: {}; single-leaf pruned roots created={} single-leaf pruned roots of an earlier compaction rolled up by a later one (pos_to_rm: sibling previously pruned)={} higher roots rolled up={}; cutoff position on a leaf (MMR of the cutoff size ends in a lone leaf): that leaf unspent={} spent for good={} spent inside the horizon (protected)={}; cutoff position on a parent={}; chain-family histories={}; snapshot round trips={} (at the head {}, after a compaction {}, header without a snapshot file {})",
+		name, nth.join(" "), st.lone_leaf_roots_created, st.lone_leaf_roots_rolled_up, st.higher_roots_rolled_up,
+		st.cutoff_lone_leaf_unspent, st.cutoff_lone_leaf_spent, st.cutoff_lone_leaf_protected, st.cutoff_pos_parent,
+		st.chain_histories, st.snapshots, st.snapshots_at_head, st.snapshots_after_compaction, st.snapshot_missing_file
+	));
 }
 
 /// `store cutoff`: the deterministic family around the compaction cutoff, all boundary leaf counts
@@ -2484,6 +2776,35 @@ fn run_bulk<T: Kind>(out: &mut Out, rng: &mut Rng, thorough: bool) {
 	print_deep_stats(out, &format!("bulk-{}", T::NAME), &st);
 }
 
+
+
+/// `store chains`: the deterministic family of two, three and four compactions in one history
+fn run_chains<T: Kind>(out: &mut Out, rng: &mut Rng, max_l: u64) {
+	let work = std::env::var("VERIF_WORK").expect("VERIF_WORK not set");
+	let dir = PathBuf::from(work).join(format!("chains_{}", T::NAME));
+	let mut st = Stats::default();
+	{
+		let mut run: Run<'_, T> = new_run(out, rng, &mut st, dir);
+		run.chain_family(max_l);
+	}
+	print_stats(out, &format!("chains-{}", T::NAME), &st);
+	print_deep_stats(out, &format!("chains-{}", T::NAME), &st);
+}
+
+/// `store snapshot`: histories with leaf-set snapshot round trips
+fn run_snapshot<T: Kind>(out: &mut Out, rng: &mut Rng, histories: u64, units: u64) {
+	let work = std::env::var("VERIF_WORK").expect("VERIF_WORK not set");
+	let dir = PathBuf::from(work).join(format!("snap_{}", T::NAME));
+	let mut st = Stats::default();
+	{
+		let mut run: Run<'_, T> = new_run(out, rng, &mut st, dir);
+		for _ in 0..histories {
+			run.snapshot_history(units, 160);
+		}
+	}
+	print_stats(out, &format!("snapshot-{}", T::NAME), &st);
+	print_deep_stats(out, &format!("snapshot-{}", T::NAME), &st);
+}
 
 /// `store imported`: stores filled through the import path of state sync, then ordinary histories
 fn run_import<T: Kind>(out: &mut Out, rng: &mut Rng, histories: u64, units: u64) {
@@ -2892,7 +3213,7 @@ fn rough<T: Kind>(out: &mut Out, rng: &mut Rng, histories: u64, steps: u64) {
 }
 
 fn main() {
-	quiet_panics();
+	if std::env::var("VERIF_STORE_LOUD").is_err() { quiet_panics(); }
 	let args: Vec<String> = std::env::args().collect();
 	let mode = args.get(1).map(|s| s.as_str()).unwrap_or("all");
 	let mut rng = Rng::new(seed_from_env());
@@ -2914,6 +3235,16 @@ fn main() {
 		run_bulk::<Elem>(&mut out, &mut rng, thorough);
 		run_bulk::<RpElem>(&mut out, &mut rng, thorough);
 		run_bulk::<VarElem>(&mut out, &mut rng, thorough);
+	}
+	if mode == "chains" || mode == "all" {
+		let max_l = if thorough { 24 } else { 11 };
+		run_chains::<Elem>(&mut out, &mut rng, max_l);
+		run_chains::<VarElem>(&mut out, &mut rng, max_l * 2 / 3);
+	}
+	if mode == "snapshot" || mode == "all" {
+		let (h, u) = if thorough { (30, 40) } else { (10, 22) };
+		run_snapshot::<Elem>(&mut out, &mut rng, h, u);
+		run_snapshot::<VarElem>(&mut out, &mut rng, h * 2 / 3, u);
 	}
 	if mode == "imported" || mode == "all" {
 		let (h, u) = if thorough { (60, 40) } else { (26, 14) };
